@@ -29,7 +29,7 @@ from hypothesis import strategies as st
 
 from vlib import exprs, tmodel, tstrat, values
 from vlib.cham import run
-from vlib.harness import Check, Mismatch, Part
+from vlib.harness import Check, HarnessError, Mismatch, Part
 
 REC_RE = re.compile(
     r' - Expression: "(.*?)"\n - Filename:   (.*?)\n - Location:   '
@@ -150,7 +150,11 @@ class Single(Part):
                 detail, got=type(r.exc).__mro__.__repr__()))
         if cls_name in NON_EXCEPTION or cls_name == "RecursionError":
             return None
-        msg = str(r.exc)
+        try:
+            msg = str(r.exc)
+        except Exception as e:  # noqa: BLE001 - the message is under test
+            return Mismatch("single:the message cannot be built (%s)"
+                            % type(e).__name__, detail)
         recs = REC_RE.findall(msg)
         if not recs:
             return Mismatch("single:message has no expression record",
@@ -212,6 +216,63 @@ def expr_of(kind, cls):
     if kind == "codeblock":
         return "\n  boom('%s', 'T')\n" % cls
     return "boom('%s', 'T')" % cls
+
+
+class Stable(Part):
+    """An exception raised by render() keeps telling the same story: its
+    message, type and arguments do not change when later renderings fail
+    (in the same or in other templates, with the same exception class)."""
+    name = "stable"
+    examples = {"quick": 150, "thorough": 3000}
+
+    def strategy(self, tier):
+        return st.fixed_dictionaries({
+            "cls": st.sampled_from([c for c in FAIL_CLASSES if c not in
+                                    NON_EXCEPTION and c != "RecursionError"]),
+            "sites": st.lists(st.sampled_from(sorted(FAIL_SITES)), min_size=2,
+                              max_size=4),
+            "other_cls": st.booleans(),
+            "lead": st.sampled_from(LEADS),
+        })
+
+    def nontrivial(self, case):
+        return not case["other_cls"]
+
+    def labels(self, case):
+        yield "same_class" if not case["other_cls"] else "mixed_classes"
+
+    def oracle(self, case):
+        from chameleon import PageTemplate
+        rec, boom = exprs.make_callables([])
+        kept = []
+        for k, site in enumerate(case["sites"]):
+            cls = case["cls"]
+            if case["other_cls"] and k % 2:
+                cls = "ValueError" if cls != "ValueError" else "KeyError"
+            src = ("<div>" + "x" * k + FAIL_SITES[site].format(
+                lead=case["lead"], cls=cls) + "</div>").replace(
+                    "'T'", "'T%d'" % k)
+            o = run(PageTemplate, src)
+            if o.ok:
+                o = run(o.value.render, boom=boom, rec=rec)
+            if o.ok or not hasattr(o.exc, "_verif_planted"):
+                raise HarnessError("scaffold did not fail as planned: %s"
+                                   % o.brief())
+            try:
+                now = (str(o.exc), type(o.exc).__mro__[1:], tuple(o.exc.args))
+            except Exception as e:  # noqa: BLE001
+                return Mismatch("stable:the message cannot be built (%s)"
+                                % type(e).__name__, {"source": src})
+            kept.append((src, o.exc, now))
+            for src0, exc0, then in kept[:-1]:
+                again = (str(exc0), type(exc0).__mro__[1:], tuple(exc0.args))
+                if again != then:
+                    return Mismatch(
+                        "stable:an earlier exception changed after a later "
+                        "failure", {"first": src0, "later": src,
+                                    "message_then": then[0][:600],
+                                    "message_now": again[0][:600]})
+        return None
 
 
 class Chain(Part):
@@ -367,7 +428,11 @@ class Chain(Part):
                 detail, mro=repr(type(o.exc).__mro__)))
         if case["cls"] in NON_EXCEPTION or case["cls"] == "RecursionError":
             return None
-        msg = str(o.exc)
+        try:
+            msg = str(o.exc)
+        except Exception as e:  # noqa: BLE001 - the message is under test
+            return Mismatch("chain:the message cannot be built (%s)"
+                            % type(e).__name__, detail)
         recs = [(t, fn.strip(), int(l), int(c))
                 for t, fn, l, c in REC_RE.findall(msg)]
         want = []
@@ -397,7 +462,7 @@ CHECK = Check(
           "newline; chain: 8 failure sites x 16 classes x load: chains of "
           "depth 0..3 over files on disk x same-template macro x XML/HTML, "
           "non-trivial = depth >= 1 or internal macro; distinct by sha1"),
-    parts=[Single(), Chain()],
+    parts=[Single(), Chain(), Stable()],
     assumptions=[
         "the expected expression text is the site's source text as written "
         "(stripped); cases where entities or ';;' are written in or before "
